@@ -11,7 +11,7 @@ CFG = {
     "level_note": "Trusted: rt/vsched + rt/vsync (self-tested in every run: a racy toy must be reported, a locked toy silent, a lost update found at bound 1), tools/vinstr rewriting, ThreadSanitizer. Not covered: more than 3 workers, more than 2-3 preemptions, memory-model effects TSan does not report, marching schedules at the real block edge 100 (explored on the scaled constant).",
     "jobs": [
         {"variant": "sched-c10", "id": "C10i", "env": _RACE, "no_ulimit": True, "share": 0.15, "gomaxprocs": 4},
-        {"variant": "sched-c10", "id": "C10s", "env": _RACE, "no_ulimit": True, "share": 0.85, "args": {"block": "6"}},
+        {"variant": "sched-c10", "id": "C10s", "env": _RACE, "no_ulimit": True, "share": 0.85, "args": {"block": "6"}, "replay_priority": 1},
     ],
     "budget": {"quick": 100, "thorough": 1200},
     "rule": "C10i: every (entry point, element count, pool size) triple; non-trivial = count > 0 and pool > 1. C10s: every schedule (choice vector) of every scenario up to the preemption bound; distinct by (scenario, choice vector)",
